@@ -199,3 +199,15 @@ Theorem code_vep_convert_core_is_model : forall strand sq as1 ae2 ts allele0,
       (match allele0 with None => None | Some al0 => Some (if strand =? -1 then revcomp al0 else al0) end).
 Proof. exact code_vep_convert_core_is_model_l. Qed.
 Print Assumptions code_vep_convert_core_is_model.
+
+(* the whole of convert_to_variant_record after the parsing of the Location column: gene sequence, the four
+   genomic -> gene conversions, transcript bounds, the strand swap of the interval, the start / stop site checks and
+   the arms above -- for every gene, transcript, chromosome and VEP row *)
+Theorem code_vep_convert_translated : Py_VEPParser.py_vep_convert_untranslated = false.
+Proof. vm_compute. reflexivity. Qed.
+Print Assumptions code_vep_convert_translated.
+
+Theorem code_vep_convert_is_model : forall g t chrom e,
+  Py_VEPParser.py_vep_convert g t chrom e = convert true g t chrom e.
+Proof. exact code_vep_convert_is_model_l. Qed.
+Print Assumptions code_vep_convert_is_model.
